@@ -407,7 +407,7 @@ func clip(b []byte) string {
 // Run is the C07 monitor.
 func Run(r *ev.Run) {
 	r.Rule = "case i = f(seed,i): a derivation program (random tree of With/WithLazy/Named/WithOptions(Fields)/Sugar/Desugar and sugared With/WithLazy with 1-20 generated fields incl. namespaces and version-probe marshalers) over tee(JSON,console,observer) under random transparent wrappers; nodes log in random order interleaved with further derivations and every node logs again at the end; each entry's JSON line, console context and observer context are compared with the model of the node's own path (name, ordered fields, evaluation moment of every With/WithLazy segment); distinct = distinct programs; non-trivial = every program (>= 3 nodes)"
-	n := r.N(1200, 40000)
+	n := r.N(3000, 40000)
 	for i := 0; i < n; i++ {
 		id := fmt.Sprintf("c07/%d", i)
 		if !r.Want(id) {
